@@ -1,14 +1,30 @@
 (* C05 -- on-busy policy: do-nothing, queue, restart and signal behave as documented.
    Proofs: Cli/OnBusyProofs.v (run-level model of the CLI's action logic) and C04 (no two live processes).
-   PARTIAL: (1) the run-level model treats the handling of one change batch as atomic; the interleaving of the
-   handler's controls with the job task is covered by the job model (C04, C06, C10) and by the in-process and
-   end-to-end runs; (2) in queue mode the reset of the `queued` flag happens a few instructions after the queued
-   run was started: a change handled exactly in between is not modelled (it needs a zero debounce to matter). *)
-From Coq Require Import List NArith Bool.
+   The Job API calls of each arm of the decision, the signal expression of signal mode and the mode shorthands are
+   TRANSLATED from cli/src/config.rs and cli/src/args/events.rs on every run (Gen/CliOnBusy_gen.v); T is the model
+   instantiated with that table.  The decision is taken on the state seen by the in-job query; `Change true` is a change
+   whose calls are processed after the command has ended meanwhile.
+   PARTIAL: in queue mode the reset of the `queued` flag happens a few instructions after the queued run was started:
+   a change handled exactly in between is not modelled (it needs a zero debounce to matter). *)
+From Coq Require Import List NArith Bool String.
 From WX Require Job.JobModel Job.JobInv.
-From WX Require Import Cli.OnBusy Cli.OnBusyProofs.
+From WX Require Import Gen.CliOnBusy_gen Cli.OnBusy Cli.OnBusyTable Cli.OnBusyProofs.
 Import ListNotations.
 Open Scope N_scope.
+
+Notation step := (OnBusy.step T).
+Notation run := (OnBusy.run T).
+Notation boot := (OnBusy.boot T).
+
+Theorem C05_handler_table : T = mkTab [KSignal] [KRestart; KNoop] [KNoop; KWaitEnd; KStart; KNoop] [] [KStart; KNoop].
+Proof. exact table_shape. Qed.
+Print Assumptions C05_handler_table.
+
+Theorem C05_shorthands_and_signal_expr :
+  onbusy_shorthands = ("Signal", "Restart")%string /\ onbusy_default = "do-nothing"%string /\
+  onbusy_signal_expr = "signal.or(stop_signal).unwrap_or(Signal::Terminate)"%string.
+Proof. exact shorthands_shape. Qed.
+Print Assumptions C05_shorthands_and_signal_expr.
 
 Theorem C05_no_overlap : forall E V ls, (List.length (JobInv.live (JobModel.run E V ls)) <= 1)%nat.
 Proof. exact JobInv.at_most_one_live. Qed.
@@ -22,18 +38,19 @@ Theorem C05_postpone : forall o, o_postpone o = true -> boot o = st0.
 Proof. exact postpone_waits. Qed.
 Print Assumptions C05_postpone.
 
-Theorem C05_idle_starts : forall o s, running s = false ->
-  running (step o s Change) = true /\ log (step o s Change) = AStart :: AChange :: log s.
+Theorem C05_idle_starts : forall o s r, running s = false ->
+  running (step o s (Change r)) = true /\ log (step o s (Change r)) = AStart :: AChange :: log s.
 Proof. exact idle_change_starts. Qed.
 Print Assumptions C05_idle_starts.
 
 Theorem C05_do_nothing : forall o s, eff_mode o = MDoNothing -> running s = true ->
-  log (step o s Change) = AChange :: log s /\ running (step o s Change) = true /\ queued (step o s Change) = queued s.
+  log (step o s (Change false)) = AChange :: log s /\ running (step o s (Change false)) = true /\
+  deferred (step o s (Change false)) = deferred s.
 Proof. exact do_nothing. Qed.
 Print Assumptions C05_do_nothing.
 
 Theorem C05_signal_only : forall o s, eff_mode o = MSignal -> running s = true ->
-  log (step o s Change) = ASignal (busy_signal o) :: AChange :: log s /\ running (step o s Change) = true.
+  log (step o s (Change false)) = ASignal (busy_signal o) :: AChange :: log s /\ running (step o s (Change false)) = true.
 Proof. exact signal_only. Qed.
 Print Assumptions C05_signal_only.
 
@@ -46,13 +63,20 @@ Proof. exact restart_shorthand. Qed.
 Print Assumptions C05_restart_shorthand.
 
 Theorem C05_restart : forall o s, eff_mode o = MRestart -> running s = true ->
-  log (step o s Change) = AStopStart (stop_sig o) :: AChange :: log s /\ running (step o s Change) = true /\ pending (step o s Change) = false.
+  log (step o s (Change false)) = AStopStart (stop_sig o) :: AChange :: log s /\ running (step o s (Change false)) = true /\
+  pending (step o s (Change false)) = false.
 Proof. exact restart_restarts. Qed.
 Print Assumptions C05_restart.
 
-Theorem C05_queue_once : forall o s n, eff_mode o = MQueue -> running s = true -> n <> 0%nat ->
-  let s' := step o (fold_left (step o) (repeat Change n) s) Exit in
-  running s' = true /\ starts s' = S (starts s) /\ queued s' = false /\ pending s' = false.
+Theorem C05_restart_when_command_ends_at_the_decision : forall o s, eff_mode o = MRestart -> running s = true -> deferred s = None ->
+  log (step o s (Change true)) = AStart :: AExit :: AChange :: log s /\ running (step o s (Change true)) = true /\
+  pending (step o s (Change true)) = false.
+Proof. exact restart_raced. Qed.
+Print Assumptions C05_restart_when_command_ends_at_the_decision.
+
+Theorem C05_queue_once : forall o s n, eff_mode o = MQueue -> running s = true -> deferred s = None -> n <> 0%nat ->
+  let s' := step o (fold_left (step o) (repeat (Change false) n) s) Exit in
+  running s' = true /\ starts s' = S (starts s) /\ deferred s' = None /\ pending s' = false.
 Proof. exact queue_once. Qed.
 Print Assumptions C05_queue_once.
 
@@ -61,11 +85,11 @@ Proof. exact restart_fresh. Qed.
 Print Assumptions C05_freshness_restart.
 
 Theorem C05_freshness_queue_partial : forall o es,
-  eff_mode o = MQueue -> let s := run o es in pending s = true -> running s = true /\ queued s = true.
+  eff_mode o = MQueue -> let s := run o es in pending s = true -> running s = true /\ deferred s = Some [KStart; KNoop].
 Proof. exact queue_fresh. Qed.
 Print Assumptions C05_freshness_queue_partial.
 
-Theorem C05_starts_only_when_idle : forall o s e, In AStart (log (step o s e)) -> ~ In AStart (log s) ->
-  (e = Change /\ running s = false) \/ (e = Exit /\ running s = true /\ queued s = true).
+Theorem C05_starts_only_when_idle : forall o s e, DefOk s -> In AStart (log (step o s e)) -> ~ In AStart (log s) ->
+  (exists r, e = Change r /\ (running s = false \/ r = true)) \/ (e = Exit /\ running s = true /\ deferred s <> None).
 Proof. exact starts_only_when_idle. Qed.
 Print Assumptions C05_starts_only_when_idle.
